@@ -509,6 +509,8 @@ class Builder:
             return f, t
         if isinstance(test, ast.Constant):
             return (frontier, []) if test.value else ([], frontier)
+        if isinstance(test, ast.Call) and isinstance(test.func, ast.Name) and test.func.id == 'bool' and len(test.args) == 1 and not test.keywords:
+            return self._cond(test.args[0], frontier, frame, ctx)          # bool(x) as a condition is x as a condition
         # a private predicate property of the class (`self._holds_resources`, getter `return self._reserved_resources != None`, or a
         # conjunction of such tests) is the condition its getter returns: reading it has no other effect
         if is_self_attr(test) and frame.concrete is not None and getattr(frame, 'kind', None) != 'static' and ctx is not None:
@@ -516,9 +518,11 @@ class Builder:
             hit_ = self.P.lookup(frame.concrete, test.attr)
             if pg and hit_ and hit_[1] == 'prop':
                 body_ = [s_ for s_ in pg[1].body if not (isinstance(s_, ast.Expr) and isinstance(s_.value, ast.Constant))]
-                if len(body_) == 1 and isinstance(body_[0], ast.Return) and isinstance(body_[0].value, (ast.Compare, ast.BoolOp, ast.UnaryOp)) \
-                        and not any(isinstance(x, (ast.Call, ast.Lambda, ast.NamedExpr)) for x in ast.walk(body_[0].value)) \
-                        and all(x.id == 'self' for x in ast.walk(body_[0].value) if isinstance(x, ast.Name)) \
+                def _is_bool_call(x):
+                    return isinstance(x, ast.Call) and isinstance(x.func, ast.Name) and x.func.id == 'bool' and len(x.args) == 1 and not x.keywords
+                if len(body_) == 1 and isinstance(body_[0], ast.Return) and (isinstance(body_[0].value, (ast.Compare, ast.BoolOp, ast.UnaryOp)) or _is_bool_call(body_[0].value)) \
+                        and not any(isinstance(x, (ast.Call, ast.Lambda, ast.NamedExpr)) and not _is_bool_call(x) for x in ast.walk(body_[0].value)) \
+                        and all(x.id in ('self', 'bool') for x in ast.walk(body_[0].value) if isinstance(x, ast.Name)) \
                         and getattr(self, '_prop_depth', 0) < 4:
                     self._prop_depth = getattr(self, '_prop_depth', 0) + 1
                     try:
@@ -1540,6 +1544,69 @@ def inline_pure_predicate_locals(P, fn, stmts):
 
 
 
+def inline_assigned_predicates(P, fn, stmts):
+    """`flag = self._pred(a)` where _pred is a pure method of the class (see _pure_method) whose body is one returned boolean formula over self
+    and its parameters: the right-hand side becomes that formula (parameters := the call-free arguments).  The value assigned is the same;
+    rules that split on a boolean local by its defining comparison (State._bool_def) see the comparison."""
+    import copy
+    from .norm import simple_return, subst
+    c = _owner_class(P, fn)
+    if c is None:
+        return stmts
+
+    def simple(e):
+        return isinstance(e, (ast.Name, ast.Constant)) or (isinstance(e, ast.Attribute) and simple(e.value))
+
+    def formula_of(call):
+        f = call.func
+        if not (isinstance(f, ast.Attribute) and isinstance(f.value, ast.Name) and f.value.id == 'self') or call.keywords or not all(simple(a) for a in call.args):
+            return None
+        if not _pure_method(P, c, f.attr):
+            return None
+        hit = P.lookup(c, f.attr)
+        ret = simple_return(hit[2])
+        ps = [a.arg for a in hit[2].args.args][1:]
+        if ret is None or len(ps) != len(call.args) or not isinstance(ret, (ast.Compare, ast.BoolOp, ast.UnaryOp)):
+            return None
+        if any(isinstance(x, ast.Call) for x in ast.walk(ret)):
+            return None
+        return subst(ret, dict(zip(ps, call.args)))
+    out, changed = [], False
+
+    def block(sts):
+        nonlocal changed
+        res = []
+        for st in sts:
+            if isinstance(st, ast.Assign) and len(st.targets) == 1 and isinstance(st.targets[0], ast.Name) and isinstance(st.value, ast.Call):
+                fm = formula_of(st.value)
+                if fm is not None:
+                    new = ast.copy_location(ast.Assign(targets=st.targets, value=fm, type_comment=None), st)
+                    for x in ast.walk(new.value):
+                        ast.copy_location(x, st.value)
+                    res.append(ast.fix_missing_locations(new))
+                    changed = True
+                    continue
+            if isinstance(st, (ast.If, ast.For, ast.While, ast.With, ast.Try)):
+                new = None
+                for fld in ('body', 'orelse', 'finalbody'):
+                    sub = getattr(st, fld, None)
+                    if sub:
+                        before = changed
+                        changed = False
+                        b2 = block(sub)
+                        if changed:
+                            new = new or copy.copy(st)
+                            setattr(new, fld, b2)
+                        changed = changed or before
+                res.append(new if new is not None else st)
+                continue
+            res.append(st)
+        return res
+    res = block(stmts)
+    return res if changed else stmts
+
+
+
 def foreign_prepass(P, fn):
     """only the passes that read logic moved onto other objects back in place (for analyses that have their own treatment of aliases)"""
     cached = fn.__dict__.get('_sa_foreign_prepass')
@@ -1568,7 +1635,7 @@ def prepass(P, fn):
     cached = fn.__dict__.get('_sa_prepass')
     if cached is not None and cached[0] is fn.body and cached[1] is P:
         return cached[2]
-    res = inline_pure_predicate_locals(P, fn, unstar_calls(fn, inline_foreign_setters(P, fn, inline_foreign_tail_calls(P, fn, inline_element_predicates(P, fn, copy_propagate(fn))))))
+    res = inline_assigned_predicates(P, fn, inline_pure_predicate_locals(P, fn, unstar_calls(fn, inline_foreign_setters(P, fn, inline_foreign_tail_calls(P, fn, inline_element_predicates(P, fn, copy_propagate(fn)))))))
     fn.__dict__['_sa_prepass'] = (fn.body, P, res)
     return res
 
